@@ -260,4 +260,9 @@ def run(chk):
             n_q += 1
             r6.expect(s.get("#destroyed") == 1, "quit(): %s exit passes client_pool.destroy once" % kind, "PooledClient.quit:%s-exit-without-destroy" % kind, "PooledClient.quit can exit (%s) having called client_pool.destroy %d times: a connection the server is closing stays in the pool" % (kind, s.get("#destroyed")), fn=q, witness=fmt_trace(t))
     r6.floor("exits of PooledClient.quit", n_q, 2)
+    # ---------------- R8 the books under every order of calls
+    r8 = chk.rule("C09.R8", "sequential histories: under every order of get / release / destroy / clear / clock ticks (objects released twice, after destroy, after clear) nothing is listed twice, at most max_size objects are listed, every object is listed or closed exactly once, get() hands out only unheld, open, fresh objects and creates only when it must")
+    from . import poolhist
+
+    poolhist.pool_histories(prog, r8, chk.tier)
     chk.assume("a connection on which a call failed is closed by the inner client itself (C01.R1); the pool then discards the client object")
